@@ -8,7 +8,7 @@ def P(k, head, **kw):
 CHECKS = {
  'C13': {
   'level': 'other',
-  'explanation': 'PARTIAL (see DESIGN.md section 4, C13).  (a) round trip: for every description over a pool of 2 states x 2-3 ranked symbols (presence bit per declared symbol, declared state, final state and transition) ParseString(Serialize(d)) returns the same symbols, states, final states and transitions, and LoadFromAutDesc + DumpToAutDesc through the explicit encoding keeps rules and final states under the same names; number<->text conversion (Convert::ToString/FromString = ostringstream/istringstream) is executed through stubs (engine/rt/convert_models.cc), everything else is the real serializer, parser and loader code.  (b) robustness: TimbukParser::ParseString (src/timbuk_parser-nobison.cc: parse_timbuk, trim, split_delim, read_word, contains_whitespace, parse_colonned_token without numbers) executed symbolically on texts consisting of one of three concrete, colon-free heads followed by K symbolic characters drawn from the 8-character alphabet {blank, newline, ( ) , - > q}: for every such text the parser returns or throws (the exception path ends at __cxa_throw), without any memory-safety / UB violation, and every transition of a returned description has a non-empty symbol and a non-empty blank-free right-hand side.  NOT covered: the iostream code behind Convert (stubbed), the loaders of the finite-automaton and BDD classes, names other than those of the pool, arbitrary bytes outside the 8-character alphabet, texts with more than K free characters.',
+  'explanation': 'PARTIAL (see DESIGN.md section 4, C13).  (a) round trip: for every description over a pool of 2 states x 2-3 ranked symbols (presence bit per declared symbol, declared state, final state and transition) ParseString(Serialize(d)) returns the same final states and transitions (the declaration lists and the automaton name are not part of the property and are not compared), and LoadFromAutDesc + DumpToAutDesc through the explicit encoding keeps rules and final states under the same names; number<->text conversion (Convert::ToString/FromString = ostringstream/istringstream) is executed through stubs (engine/rt/convert_models.cc), everything else is the real serializer, parser and loader code.  (b) robustness: TimbukParser::ParseString (src/timbuk_parser-nobison.cc: parse_timbuk, trim, split_delim, read_word, contains_whitespace, parse_colonned_token without numbers) executed symbolically on texts consisting of one of three concrete, colon-free heads followed by K symbolic characters drawn from the 8-character alphabet {blank, newline, ( ) , - > q}: for every such text the parser returns or throws (the exception path ends at __cxa_throw), without any memory-safety / UB violation, and every transition of a returned description has a non-empty symbol and a non-empty blank-free right-hand side.  NOT covered: the iostream code behind Convert (stubbed), the loaders of the finite-automaton and BDD classes, names other than those of the pool, arbitrary bytes outside the 8-character alphabet, texts with more than K free characters.',
   'bounds': {'quick': 'robustness: 3 heads x K in {4,5} free characters (12 and 15 free bits per query); round trip and load/dump: 2 states x 2 symbols (12 bits)', 'thorough': 'robustness: 3 heads x K in {4,5,6}; round trip additionally 2 states x 3 symbols incl. a binary one (15 bits)'},
   'outside': 'see explanation: round trip, serializer, loaders, numbers after a colon, bytes outside the alphabet, longer free parts',
   'harnesses': [
